@@ -1127,6 +1127,242 @@ def cipher_cases(ctx, batch):
     batch.add([], cases, 3000)
 
 
+# --------------------------------------------------------------------------- whole sessions
+# "Never reused under a key" is per KEY, not per cipher object: an AirPlay 2 session derives
+# several keys from one shared secret (HKDF, different salt/info strings).  The real derivation
+# call sites are driven with a recording verifier and real HKDF; every AEAD object created
+# during the session is recorded (key, nonce); all channels carry some traffic.
+
+SESSION_SECRET = bytes((7 * i + 3) % 256 for i in range(64))
+
+
+def _hkdf(salt, info):
+    from cryptography.hazmat.primitives import hashes
+    from cryptography.hazmat.primitives.kdf.hkdf import HKDF
+    return HKDF(algorithm=hashes.SHA512(), length=32, salt=salt.encode(), info=info.encode()).derive(SESSION_SECRET)
+
+
+class SessVerifier:
+    def __init__(self):
+        self.calls = []
+        self.by_key = {}
+
+    async def verify_credentials(self):
+        return True
+
+    def encryption_keys(self, salt, output_info, input_info):
+        self.calls.append([salt, output_info, input_info])
+        ko, ki = _hkdf(salt, output_info), _hkdf(salt, input_info)
+        self.by_key.setdefault(ko, [salt, output_info])
+        self.by_key.setdefault(ki, [salt, input_info])
+        return ko, ki
+
+
+class _Sock:
+    def getpeername(self):
+        return ("10.0.0.2", 7000)
+
+    def getsockname(self):
+        return ("10.0.0.1", 5000)
+
+
+class SessTransport(FakeTransport):
+    def get_extra_info(self, name):
+        return _Sock()
+
+
+class _Conn:
+    remote_ip = "10.0.0.2"
+
+    def __init__(self):
+        self.receive_processor = None
+        self.send_processor = None
+
+    def close(self):
+        pass
+
+
+class _Rtsp:
+    session_id = 4711
+
+    def __init__(self, conn):
+        self.connection = conn
+
+    async def setup(self, headers=None, body=None):
+        import plistlib
+        from pyatv.support.http import HttpResponse
+        if "streams" in (body or {}):
+            d = {"streams": [{"controlPort": 6001, "dataPort": 6002}]}
+        else:
+            d = {"eventPort": 6000}
+        return HttpResponse("RTSP", "1.0", 200, "OK", {}, plistlib.dumps(d, fmt=plistlib.FMT_BINARY))
+
+    async def record(self, **kw):
+        return None
+
+
+def run_session(which):
+    """Drive one session's key-derivation call sites and traffic.  Returns a dict with the
+    derivation calls, one entry per AEAD object that encrypted (label = the (salt, info) its key
+    was derived with), pyatv's (key, nonce) pairs and the peer's."""
+    import asyncio
+    import random
+    import vloop
+    import pyatv.support.chacha20 as cc
+    import pyatv.protocols.airplay.auth as auth
+
+    real_aead, real_pv = cc.ChaCha20Poly1305, auth.pair_verify
+    enc, objs, created = [], [], []
+
+    class RecAEAD:
+        def __init__(self, key):
+            self.key = bytes(key)
+            self.inner = real_aead(key)
+            objs.append(self)
+
+        def encrypt(self, nonce, data, aad):
+            enc.append((self.key, bytes(nonce), objs.index(self)))
+            return self.inner.encrypt(nonce, data, aad)
+
+        def decrypt(self, nonce, data, aad):
+            return self.inner.decrypt(nonce, data, aad)
+
+    class Loop(vloop.VLoop):
+        async def create_connection(self, factory, host=None, port=None, **kw):
+            p, t = factory(), SessTransport()
+            p.connection_made(t)
+            created.append((p, t))
+            return t, p
+
+    ver = SessVerifier()
+    conn = _Conn()
+    rstate = random.getstate()
+    loop = Loop()
+    peer_enc = []
+    try:
+        random.seed(20260930)
+        cc.ChaCha20Poly1305 = RecAEAD
+        auth.pair_verify = lambda creds, connection: ver
+        asyncio.set_event_loop(loop)
+
+        def device_sends(chan, payloads):
+            # the device encrypts under pyatv's INPUT key of that channel, counting from 0
+            aead = RefAEAD(chan.session.chacha20._enc_in.key)
+            for i, req in enumerate(payloads):
+                n, lb = peer_nonce("pad8", i), struct.pack("<H", len(req))
+                peer_enc.append((chan.session.chacha20._enc_in.key, n))
+                chan.data_received(lb + aead.encrypt(n, req, lb))
+
+        events = [b"POST /command RTSP/1.0\r\nCSeq: %d\r\nContent-Length: 0\r\n\r\n" % i for i in range(3)]
+        if which == "raop":
+            from pyatv.protocols.raop.protocols import StreamContext
+            from pyatv.protocols.raop.protocols.airplayv2 import AirPlayV2
+
+            async def go():
+                ap = AirPlayV2(StreamContext(), _Rtsp(conn))
+                await ap._setup_base(1234)
+                await ap.setup_audio_stream(5555)
+                return ap
+
+            ap = loop.run_until_complete(go())
+            for i in range(3):
+                conn.send_processor(b"SETUP rtsp://x RTSP/1.0\r\nCSeq: %d\r\n\r\n" % i)
+            device_sends(created[0][0], events)
+            tr = FakeTransport()
+            for i in range(3):
+                co = ap.send_audio_packet(tr, struct.pack(">BBHII", 0x80, 0x60, i, 352 * i, 7), bytes(16))
+                try:
+                    co.send(None)
+                except StopIteration:
+                    pass
+            replies = len(created[0][1].out)
+        else:
+            from pyatv.auth.hap_pairing import TRANSIENT_CREDENTIALS
+            from pyatv.protocols.airplay.ap2_session import AP2Session
+            from pyatv.protocols.airplay.auth import verify_connection
+            from pyatv.settings import InfoSettings
+
+            async def go():
+                sess = AP2Session("10.0.0.2", 7000, TRANSIENT_CREDENTIALS, InfoSettings())
+                sess.connection = conn
+                sess.verifier = await verify_connection(TRANSIENT_CREDENTIALS, conn)
+                sess.rtsp = _Rtsp(conn)
+                await sess.setup_remote_control()
+                return sess
+
+            sess = loop.run_until_complete(go())
+            for i in range(3):
+                conn.send_processor(b"POST /feedback RTSP/1.0\r\nCSeq: %d\r\n\r\n" % i)
+            device_sends(created[0][0], events)
+            from pyatv.protocols.mrp import messages, protobuf
+            for i in range(3):
+                sess.data_channel.send_protobuf(messages.create(protobuf.GENERIC_MESSAGE))
+            replies = len(created[0][1].out)
+    finally:
+        cc.ChaCha20Poly1305 = real_aead
+        auth.pair_verify = real_pv
+        random.setstate(rstate)
+        asyncio.set_event_loop(None)
+        loop.close()
+    used = sorted({o for (_, _, o) in enc})
+    labels = {o: ver.by_key.get(objs[o].key, ["?", objs[o].key.hex()]) for o in used}
+    return {"which": which, "derivations": ver.calls, "labels": labels, "enc": enc, "peer_enc": peer_enc,
+            "event_replies": replies, "n_objects": len(objs)}
+
+
+def judge_session(ctx, r):
+    seen = {}
+    for k, n, o in r["enc"]:
+        if (k, n) in seen and seen[(k, n)] != o:
+            a, b = r["labels"][seen[(k, n)]], r["labels"][o]
+            ctx.violation("C07:session:nonce-reuse-across-channels",
+                          "two cipher objects of one %s session encrypt under the same key with the same nonce %s: keys derived with %s and %s"
+                          % (r["which"], n.hex(), a, b),
+                          {"kind": "session", "which": r["which"], "channels": [a, b], "nonce": n.hex(), "derivations": r["derivations"]})
+            break
+        seen.setdefault((k, n), o)
+    for k, n in r["peer_enc"]:
+        if (k, n) in seen:
+            a = r["labels"][seen[(k, n)]]
+            ctx.violation("C07:session:key-and-nonce-shared-with-peer-direction",
+                          "%s session: pyatv encrypts under the key derived with %s with nonce %s, and the device encrypts its event-channel "
+                          "requests under the same key with the same nonce" % (r["which"], a, n.hex()),
+                          {"kind": "session", "which": r["which"], "channels": [a, "event channel, device -> pyatv"], "nonce": n.hex(),
+                           "derivations": r["derivations"]})
+            break
+    if r["event_replies"] != 3:
+        ctx.violation("C07:session:event-channel-dead", "the event channel answered %d of 3 requests" % r["event_replies"],
+                      {"kind": "session", "which": r["which"]})
+    ctx.case(("session", r["which"], json.dumps(r["derivations"])), nontrivial=True,
+             sample={"session": r["which"], "derivations": r["derivations"], "encrypting_objects": list(r["labels"].values()),
+                     "encrypt_calls": len(r["enc"])})
+    ctx.count("session:" + r["which"])
+
+
+def gen(ctx):
+    """Translator: (salt, info) of every key pyatv ENCRYPTS under in an AirPlay 2 session, read by
+    running the real derivation call sites.  Re-emitted on every run; fail closed."""
+    rows = []
+    for which in ("raop", "ap2"):
+        r = run_session(which)
+        if not r["labels"] or any(l[0] == "?" for l in r["labels"].values()):
+            raise RuntimeError("cannot attribute a cipher object of the %s session to a key derivation: %s" % (which, r["labels"]))
+        rows.append((which, [r["labels"][o] for o in sorted(r["labels"])]))
+    txt = ["(* GENERATED by harness/c07.py gen() from the key-derivation call sites of /repo - do not edit. *)",
+           "From Coq Require Import List NArith. Import ListNotations.", "Local Open Scope N_scope.",
+           "(* (salt, info) the out-key of each encrypting cipher object of the session was derived with *)"]
+    for which, labs in rows:
+        txt.append("Definition out_derivs_%s : list (list N * list N) := [\n  %s\n]." % (
+            which, ";\n  ".join("(%s, %s)" % (lit(a.encode()), lit(b.encode())) for a, b in labs)))
+    path = os.path.join(common.COQ, "C07", "Gen.v")
+    new = "\n".join(txt) + "\n"
+    if not os.path.exists(path) or open(path).read() != new:
+        with open(path, "w") as f:
+            f.write(new)
+    return rows
+
+
+
 # --------------------------------------------------------------------------- run
 
 def report(ctx, sc, viol, extra=None):
@@ -1250,6 +1486,10 @@ def run_scenario(ctx, batch, sc, idx, tag):
 
 
 def run(ctx):
+    try:
+        ctx.extra["generated_out_derivations"] = gen(ctx)
+    except Exception as ex:  # noqa
+        ctx.tie_broken("translator:session-key-derivations", repr(ex))
     ctx.build_property()
     if ctx.thorough:
         ctx.coqchk()
@@ -1274,6 +1514,8 @@ def run(ctx):
         do_recv(ctx, batch, sc, idx)
         idx += 1
     long_oracle(ctx)
+    for which in ("raop", "ap2"):
+        judge_session(ctx, run_session(which))
     mism = batch.run()
     for g, meta in mism[:12]:
         ctx.tie_broken("correspondence:" + g, json.dumps(meta)[:3000])
@@ -1315,9 +1557,13 @@ def replay(ctx, path):
                 var["lens"][:8], var.get("tamper"), [x if not isinstance(x, bytes) else x.hex()[:40] for x in (obs["got"] if sc["chan"] not in ("comp",) else [[a, b.hex()[:40]] for a, b in obs["got"]])][:8],
                 obs["exc"], obs["counter"], obs["residual"]))
             viol += v
+    elif sc.get("kind") == "session":
+        r = run_session(sc["which"])
+        print("derivations:", r["derivations"])
+        print("encrypting cipher objects:", list(r["labels"].values()))
+        judge_session(ctx, r)
+        viol = [(v["key"], v["what"]) for v in ctx.violations]
     else:
-        class C:  # minimal ctx for long_oracle
-            pass
         viol = []
         long_oracle(ctx)
         viol = [(v["key"], v["what"]) for v in ctx.violations]
